@@ -16,9 +16,10 @@ PROPS = {
              "and x Next/Prev label sets (PrevNext), from spec/Pager.tla; non-trivial = runs that returned a next link",
         nontrivial_key="next_found", assumptions=ASSUME, exhaustive_tiers=("thorough",)),
     "C16": dict(
-        stages=[dict(name="main", gen=dict(runs=dict(quick=[bfs("MC_Pager", "C16_quick"), sim("MC_Pager", "C16_thorough", 6000, 5), bfs("MC_Pager", "C17_conv")],
+        stages=[dict(name="main", gen=dict(runs=dict(quick=[bfs("MC_Pager", "C16_quick"), bfs("MC_Pager", "C16_q3"), sim("MC_Pager", "C16_thorough", 3000, 5), bfs("MC_Pager", "C17_conv")],
                                                      thorough=[bfs("MC_Pager", "C16_thorough", heap="12g"), bfs("MC_Pager", "C17_conv")])),
-                     sample=dict(quick=16000, thorough=500000), trace=TRACE)],
+                     sample=dict(quick=40000, thorough=600000), trace=TRACE,
+                     stratify=lambda c: (c["p"]["kind"], c["p"]["algo"], len(c["p"].get("anchors", []))))],
         rule="cases = every sequence of up to 2 (quick) / 3 (thorough) anchors over 14 href kinds x 3 label kinds x position of the plain "
              "current-page number x both finders x 3 page-URL shapes, plus the conventional pagers; non-trivial = runs that returned a next or prev link",
         nontrivial_key="next_found", assumptions=ASSUME, exhaustive_tiers=()),
